@@ -37,6 +37,11 @@ fn spec_pixel_time(m: ZXMachine, x: usize, y: usize) -> isize {
     (y * 2 * spec_line_t(m) + x) as isize
 }
 
+/// colour the device paints from its recorded beam position onwards
+pub(crate) fn device_colour<FB: FrameBuffer>(b: &ZXBorder<FB>) -> u8 {
+    b.beam_last.color.into()
+}
+
 fn any_machine() -> ZXMachine {
     if kani::any() {
         ZXMachine::Sinclair48K
@@ -143,7 +148,7 @@ static mut W_HITS: u32 = 0;
 static mut W_COLOR: u8 = 0xFF;
 static mut W_BAD_RANGE: bool = false;
 
-fn fill_to_summary<FB: FrameBuffer>(this: &mut ZXBorder<FB>, line: usize, pixel: usize) {
+pub(crate) fn fill_to_summary<FB: FrameBuffer>(this: &mut ZXBorder<FB>, line: usize, pixel: usize) {
     let from = this.beam_last.line * SCREEN_WIDTH + this.beam_last.pixel;
     let to = line * SCREEN_WIDTH + pixel;
     unsafe {
